@@ -208,7 +208,8 @@ impl DigestAuthenticator {
         );
 
         if is_session {
-            ha1 = format!("{}:{}:{}", ha1, challenge.nonce, cnonce);
+            // HA1 of the -sess algorithms is H(H(user:realm:password):nonce:cnonce) (RFC7616 Section 3.4.2)
+            ha1 = hash(format!("{}:{}:{}", ha1, challenge.nonce, cnonce).as_bytes());
         }
 
         let ctx = PrintCtx {
